@@ -71,10 +71,13 @@ def aml_sites(rng, th):
     over = [maxv - 5, maxv - 4, maxv - 3, maxv, maxv + 1, maxv + 2, 1 << 29, 1 << 30, (1 << 31) - 1]
     progs.append({"fam": "pkglen", "ns": over, "incl": True})
     progs.append({"fam": "pkglen", "ns": over, "incl": False})
-    if th:
-        # bodies of 2^28 bytes built for real (about 1 GiB peak): at the limit and just beyond
-        for n in (maxv - 12, maxv - 9, maxv - 2, maxv + 1):
-            progs.append(aml({"t": "Scope", "path": amlgen.chars("BIG_"), "ch": [{"t": "BufferFill", "n": n, "b": 0}]}, summary=True, tag="scope_body/%d" % n))
+    # bodies of 2^28 bytes built for real (about 1 GiB peak each), through every length-prefixed emitter: well below the
+    # limit, where only the outer object exceeds it, and where the inner buffer already does
+    kinds = ["BufferData", "Package", "VarPackage", "BufferTerm", "Device", "Scope", "Method", "PowerResource", "If", "Else", "While"]
+    for kind in (kinds if th else ["BufferData", "Package", "Scope", "Method", "Device", "If"]):
+        for n in ((maxv - 60, maxv - 12, maxv - 9, maxv - 2, maxv + 1) if th else (maxv - 60, maxv - 9, maxv + 1)):
+            g, t = amlgen.sized(rng, kind, n)
+            progs.append(aml(t, summary=True, tag="%s_body/%d" % (kind, n)))
     return progs
 
 
